@@ -34,6 +34,23 @@ pub fn contract_add_assign<C: Ctx>(cx: &mut C) {
     vob!(cx, "C04.add_assign.size_flag_sticky", a.is_size_constraint == (s1 || s2));
 }
 
+/// accessors for the native replay of the Verus unit C04_bounds (the functions are private to this file)
+pub fn hook_intersect_single_and_range(value: &ASN1Value, min: Option<&ASN1Value>, max: Option<&ASN1Value>, x1: bool, x2: bool) -> Result<Option<SubtypeElements>, GrammarError> {
+    intersect_single_and_range(value, min, max, x1, x2, None, true)
+}
+pub fn hook_union_single_and_range(v: &ASN1Value, min: Option<&ASN1Value>, max: Option<&ASN1Value>, x1: bool, x2: bool) -> Result<Option<SubtypeElements>, GrammarError> {
+    union_single_and_range(v, min, None, max, x1, x2, true)
+}
+pub fn hook_fold_constraint_set(set: &SetOperation) -> Result<Option<SubtypeElements>, GrammarError> {
+    fold_constraint_set(set, None, true)
+}
+pub fn hook_compare_optional(first: Option<&ASN1Value>, second: Option<&ASN1Value>, take_min: bool) -> Result<Option<ASN1Value>, GrammarError> {
+    compare_optional_asn1values(first, second, |a, b| if take_min { a.min(b, None) } else { a.max(b, None) })
+}
+pub fn hook_union_optional(first: Option<&ASN1Value>, second: Option<&ASN1Value>, take_min: bool) -> Result<Option<ASN1Value>, GrammarError> {
+    union_optional_asn1values(first, second, |a, b| if take_min { a.min(b, None) } else { a.max(b, None) })
+}
+
 #[cfg(kani)]
 mod kani_harness {
     use super::*;
